@@ -7,13 +7,14 @@ import AriVerif.Gen.Pool
 import AriVerif.Proto
 import AriVerif.Spec.Ari
 import AriVerif.Init
+import AriVerif.Conc.Data
 /-!
 Line-protocol driver: one operation per input line, one answer line per operation.
 Every string travels as lower-case hex of its UTF-8 bytes (`-` = empty).
 Only model definitions are executed here; nothing is defaulted: an unknown or ill-formed
 operation answers `bad-op`.
 -/
-open Ari Ari.Proto
+open Ari Ari.Proto Ari.Conc
 
 def showDec : Dec → String
   | .val none => "ok n"
@@ -167,14 +168,95 @@ def stepLine (line : String) : String :=
       | none => "bad-op"
   | _ => "bad-op"
 
-partial def loop (h : IO.FS.Stream) (out : IO.FS.Stream) : IO Unit := do
+structure DriverState where
+  data : Option DState := none
+
+def showGEff : GEff → String
+  | .enqueue l => "enq:" ++ Hex.ofStr l
+  | .submit n => "sub:" ++ toString n
+  | .adapterBegin m x => "ab:" ++ (match m with | .snap => "snap" | .sub => "sub" | .usb => "usb") ++ ":" ++ Hex.ofStr x
+  | .adapterEnd m x => "ae:" ++ (match m with | .snap => "snap" | .sub => "sub" | .usb => "usb") ++ ":" ++ Hex.ofStr x
+  | .sent b => "sent:" ++ Hex.ofStr b
+
+def parseLKind (ts : List String) : Option LKind :=
+  match ts with
+  | ["eos"] => some .eos
+  | ["cls"] => some .cls
+  | "upd" :: rest =>
+    match parsePy rest with
+    | some (snap, r) => match parseEv r with
+      | some (ev, []) => some (.update snap ev)
+      | _ => none
+    | none => none
+  | _ => none
+
+def parseOp (ts : List String) : Option (OpClass × String) :=
+  match ts with
+  | ["start"] => some (.taskStart, "")
+  | ["tstart"] => some (.threadStart, "")
+  | ["ilock"] => some (.itemLock, "")
+  | ["mlock"] => some (.mgrLock, "")
+  | ["put"] => some (.put, "")
+  | ["lput", x] => (Hex.toStr? x).map fun i => (.lsnPutOp, i)
+  | ["abegin"] => some (.adapterBegin, "")
+  | ["aend", "R", f] => some (.adapterEnd (.ret (f == "t")), "")
+  | "aend" :: "E" :: rest => match parseExc rest with
+    | some (e, []) => some (.adapterEnd (.raise e), "")
+    | _ => none
+  | ["recv"] => some (.recv, "")
+  | ["get", t] => some (.get (t == "t"), "")
+  | ["send"] => some (.send, "")
+  | ["deliver", c] => (Hex.toStr? c).map fun x => (.deliver x, "")
+  | "llock" :: x :: rest => match Hex.toStr? x, parseLKind rest with
+    | some i, some k => some (.lsnLock k, i)
+    | _, _ => none
+  | _ => none
+
+/-- one co-simulation chunk: `k <tid> <op…> ; <effects…> ; <enabled,…> ; <snapshot hex>` -/
+def cosimChunk (st : DState) (toks : List String) : DState × String :=
+  let parts := (toks.foldl (fun (acc : List (List String)) t =>
+    if t = ";" then [] :: acc else match acc with
+      | cur :: rest => (t :: cur) :: rest
+      | [] => [[t]]) [[]]).reverse.map List.reverse
+  match parts with
+  | [(tid :: opToks), effs, en, [snap]] =>
+    match parseOp opToks with
+    | none => (st, "bad-op")
+    | some (op, lsnItem) =>
+      match gstep st tid op lsnItem with
+      | none => (st, "mismatch step-not-enabled-in-model tid=" ++ tid ++ " op=" ++ " ".intercalate opToks)
+      | some (st', geffs) =>
+        let me := geffs.map showGEff
+        let men := ",".intercalate (genabled st')
+        let msnap := Hex.ofStr (gsnap st')
+        let ien := match en with | [e] => e | _ => ""
+        if me != effs then (st', "mismatch effects model=" ++ " ".intercalate me ++ " impl=" ++ " ".intercalate effs)
+        else if men != ien then (st', "mismatch enabled model=" ++ men ++ " impl=" ++ ien)
+        else if msnap != snap then (st', "mismatch snapshot model=" ++ gsnap st' ++ " impl=" ++ (Hex.toStr? snap).getD "?")
+        else (st', "ok")
+  | _ => (st, "bad-op")
+
+def stepState (ds : DriverState) (line : String) : DriverState × String :=
+  match (line.splitOn " ").filter (· ≠ "") with
+  | ["cosim", "data", n] =>
+    match n.toNat? with
+    | some k => ({ ds with data := some { poolN := k } }, "ok")
+    | none => (ds, "bad-op")
+  | "k" :: rest =>
+    match ds.data with
+    | some st => let (st', ans) := cosimChunk st rest; ({ ds with data := some st' }, ans)
+    | none => (ds, "bad-op")
+  | _ => (ds, stepLine line)
+
+partial def loop (h : IO.FS.Stream) (out : IO.FS.Stream) (ds : DriverState) : IO Unit := do
   let line ← h.getLine
   if line.isEmpty then return ()
   let l := String.ofList (line.toList.filter (fun c => c != '\n' && c != '\r'))
-  out.putStrLn (stepLine l)
-  loop h out
+  let (ds', ans) := stepState ds l
+  out.putStrLn ans
+  loop h out ds'
 
 def main : IO Unit := do
   let stdin ← IO.getStdin
   let stdout ← IO.getStdout
-  loop stdin stdout
+  loop stdin stdout {}
